@@ -112,9 +112,9 @@ func runC16(c *core.Ctx) error {
 		return err
 	}
 	avoid := c.KF.Avoid()
-	total := c.Pick(300, 4000)
-	chunks := c.Pick(6, 40)
-	c.Ev.Coverage.Rule = "cases = (degenerate schema drawn by rapid: type cycles through singular/repeated/map/oneof fields, mutual cycles, chains and nested definitions to depth 60, 100-400 fields, very long names, well-known types, empty messages/services, shared request types, missing go_package, odd identifiers; one case in three also carries one misused annotation from the C12 catalogue at a random placement) x plugin x parameters (generate_mock, format, paths, and malformed parameter strings: bare words, stray commas, empty keys or values); each case is one plugin process judged on exit status, stdout, stderr, wall time (20 s, re-run alone before it counts) and peak RSS (2 GiB). Non-trivial = schema has a type cycle, depth >= 8, >= 100 fields, an empty service, a well-known type or a missing go_package; distinct by (schema, plugin, parameter)."
+	total := c.Pick(1200, 8000)
+	chunks := c.Pick(12, 40)
+	c.Ev.Coverage.Rule = "cases = (degenerate schema drawn by rapid: type cycles through singular/repeated/map/oneof fields, mutual cycles, chains and nested definitions to depth 60, 100-400 fields, very long names, well-known types, empty messages/services, shared request types, missing go_package, odd identifiers; one case in two also carries one misused annotation from the C12 catalogue at a random placement) x plugin x parameters (generate_mock, format, paths, and malformed parameter strings: bare words, stray commas, empty keys or values); each case is one plugin process judged on exit status, stdout, stderr, wall time (20 s, re-run alone before it counts) and peak RSS (2 GiB). Non-trivial = schema has a type cycle, depth >= 8, >= 100 fields, an empty service, a well-known type or a missing go_package; distinct by (schema, plugin, parameter)."
 	c.Ev.Assumptions = []string{"termination is observed with a bound (20 s, 2 GiB), not proved", "descriptor well-formedness is enforced by the generator and protodesc.NewFiles, standing in for protoc"}
 	for k := 0; k < chunks; k++ {
 		var last *c16Case
@@ -122,13 +122,19 @@ func runC16(c *core.Ctx) error {
 		res := rapidx.Check("C16", total/chunks, uint64(c.SubSeed(k)), 60*time.Second, func(t *rapid.T) {
 			s := schema.GenerateDegenerate(t, "d0001", avoid)
 			misused := ""
-			if rapid.IntRange(0, 2).Draw(t, "misuse") == 0 {
+			if rapid.IntRange(0, 1).Draw(t, "misuse") == 0 {
 				// a well-formed request may carry a misused annotation: the answer is then an error message (or
 				// files, for plugins that do not check the rule), never a crash
 				rule := schema.RuleCatalogue[rapid.IntRange(0, len(schema.RuleCatalogue)-1).Draw(t, "misused_rule")]
 				pl := schema.Placements[rapid.IntRange(0, len(schema.Placements)-1).Draw(t, "misused_at")]
 				schema.InjectShape = -1
+				// half of them on a message that is itself an RPC's response or request type
+				schema.InjectAsBody = rapid.SampledFrom([]int{-1, -1, 0, 0, 1}).Draw(t, "misused_as_body")
 				inj := schema.Inject(t, s, rule, pl)
+				schema.InjectAsBody = -1
+				if inj.Shape == "as_rpc_body" {
+					c.Ev.Class("misused_annotation:on_rpc_body", 1)
+				}
 				misused = inj.Rule
 				c.Ev.Class("misused_annotation:"+inj.Rule, 1)
 			}
